@@ -44,6 +44,12 @@ def run(F, rep, tier):
             rep.ok(r4, "ModelEvaluator::new", "returns %s" % ret[:80])
         else:
             rep.violation(r4, "ModelEvaluator::new", "ModelEvaluator::new returns %s, build problems cannot be reported" % ret, b["file"])
+    # premise of "invoking any invocable returns a value": slice::sort_by panics (Rust >= 1.81) when the comparator is not a total order; the only
+    # user-written comparator on the evaluation path is the priority comparator of the decision tables, whose order properties are rules R03.5 of C03
+    from props import c03
+    expl = rep.explanation
+    c03.run(F, rep, tier)
+    rep.explanation = expl + " The decision-table rules of C03 (R03.x, among them the total-order conditions of the priority comparator handed to sort_by) are re-evaluated as premises."
 
 
 def self_deadlock(F, G, rep, rid):
